@@ -28,6 +28,7 @@ from xknx.dpt.payload import DPTArray
 
 PROPERTY = "C09"
 MODULES = ["XknxVerif.Props.C09"]
+DRIVE_PROCS = 8
 CASE_TIMEOUT = 30.0
 RULE = ("every DPTNumeric class x {all integers of the declared range +-3 steps when the range spans <= 70000 (quick) / <= 7.1e6 "
         "(thorough; for DPT 9 once per distinct declared range); else boundaries, powers of two, multiples of the resolution +-1 and "
